@@ -314,14 +314,16 @@ def run(ctx):
         "core.ContractionTree.parallel_temper": ["default"],
         "pathfinders.path_simulated_annealing.parallel_temper_tree": ["default"],
         "core.ContractionTree.subtree_reconfigure_forest": ["default", "select_max_bfs"],
-        "pathfinders.path_basic.RandomGreedyOptimizer": ["default"],
+        "pathfinders.path_basic.RandomGreedyOptimizer": ["default", "tied-lattice", "tied-ring"],
     }
     for nm, variants in sorted(POOL_APIS.items()):
         if nm not in api_names:
             continue
         for variant in variants:
-            for ni in range(len(nets))[:ctx.n(2, 5)]:
-                for sd in seeds[:ctx.n(2, 4)]:
+            tied = variant.startswith("tied")
+            for ni in (range(1) if tied else range(len(nets))[:ctx.n(2, 5)]):
+                # the tied networks are fixed; seeds 0..7 (2 and 4 are known to tie on the 3x3 lattice)
+                for sd in (list(range(ctx.n(8, 24))) if tied else seeds[:ctx.n(2, 4)]):
                     jobs.append({"id": "%s|%s|%s|%d|pool" % (nm, variant, ni, sd), "api": nm, "variant": variant,
                                  "net": netof(ni)[0], "seed": sd, "neti": ni, "pool": True})
     # corpus: the repro of every known finding is probed on every run
@@ -409,6 +411,9 @@ def run(ctx):
                 ctx.count("pool-order:" + nm.split(".")[-1])
                 if any(isinstance(r.get("result"), dict) and r["result"].get("pool_used") for r in recs.values()):
                     ctx.count("pool-order:pool-really-used")
+                if any(isinstance(r.get("result"), dict) and r["result"].get("tied_best_batches_with_different_paths")
+                       for r in recs.values()):
+                    ctx.count("pool-order:tied-best-batches-with-different-paths")
             for f in feats:
                 ctx.count(f)
         if errs:
@@ -476,6 +481,11 @@ def run(ctx):
                     # the defect is present (the seeded call consumes the global generator) even though
                     # these few runs happened to agree
                     ctx.fail("seeded call draws from the global generator: %s" % nm, replay, key=key, found_input=True)
+    # generator floor: the tie-break of a reduction over batch results is only exercised when batches tie
+    if outs and "pathfinders.path_basic.RandomGreedyOptimizer" in api_names and \
+            not ctx.coverage["features"].get("pool-order:tied-best-batches-with-different-paths"):
+        broken.append(("generator floor not met: no pool case in which >= 2 batches tie at the best cost with different "
+                       "paths (the order-dependence of the reduction over batches is not exercised)", {}))
     for (nm, variant), es in sorted(err_apis.items()):
         ctx.notes.append("API %s [%s] raised in some jobs: %s" % (nm, variant, sorted(es)[:2]))
         ctx.count("jobs_with_errors")
